@@ -3,6 +3,16 @@
 import json, os, subprocess
 
 CLAIMS = {
+ "C11": dict(
+   category="exploration", design_ref="DESIGN.md §5 C11",
+   technique="stateful property-based testing (rapid): generated histories of node-producing and potentially mutating API calls over a table of tracked nodes, with a snapshot invariant checked after every step",
+   text="Histories of up to 30 operations produce nodes through builders of every implementation and call program, decoders (whose input buffer is then overwritten), reader-backed bytes nodes, subset and plain selector matches, walks, FocusedTransform, Copy, embedding in new containers that are extended afterwards, root AssignNode followed by Reset and reuse, and Reset/reuse of producing builders; interleaved with full, partial and repeated reads, AsLargeBytes readers used concurrently with seeks, and encoding. After every operation every tracked node is read twice and must equal the snapshot taken when it was finished.",
+   note="Trusted: the plain reader and value model. Caller-owned byte slices are copied before being handed in and never written afterwards (the documented exclusion)."),
+ "C12": dict(
+   category="exploration", design_ref="DESIGN.md §5 C12",
+   technique="model-based protocol testing (rapid): generated legal assembler call sequences with injected repeated keys and kind-inappropriate assignments; the model predicts every call's outcome and the final node",
+   text="For drawn values the legal call sequence (size hints, entry styles, foreign AssignNode) is replayed on generic and reflection-bound builders; before drawn entries of drawn maps a repeated key is supplied through AssembleEntry, key AssignString or key AssignNode and must be answered with a repeated-key error (matched by type), after which the sequence continues and the built node must be exactly the accepted entries in order; a kind-inappropriate first call on a fresh kind-specific builder must return an error; Reset and reuse must yield the second value and leave the first node intact. Typed struct/union/tuple builders are driven the same way from generated schemas under C09/C13.",
+   note="Misuse orders (value before key, use after finish) are never generated: the contract allows them to panic. After a rejected value (as opposed to key) nothing further is asserted."),
  "C10": dict(
    category="exploration", design_ref="DESIGN.md §5 C10",
    technique="property-based robustness testing (rapid) plus native coverage-guided fuzzing (go test -fuzz) of every untrusted-input entry point, with measured oracles: recovered panics, watchdog for termination, a counting proxy assembler for nesting depth and size hints, runtime allocation delta against K·(budget+input)",
